@@ -189,7 +189,14 @@ impl Idle {
                             _ => (State::Idle(self), Err(Error::UnexpectedRadioResponse.into())),
                         }
                     }
-                    Err(e) => (State::Idle(self), Err(super::Error::Radio(e))),
+                    Err(e) => {
+                        // The data frame was handed to the radio: conclude the uplink so that
+                        // its frame counter is never used for another frame.
+                        if let Frame::Data = frame {
+                            let _ = mac.rx2_complete();
+                        }
+                        (State::Idle(self), Err(super::Error::Radio(e)))
+                    }
                 }
             }
         }
